@@ -30,6 +30,10 @@ type c05Case struct {
 	First []int `json:"first"`
 	Depth int   `json:"depth"`
 	Cache int   `json:"cache,omitempty"` // node_cache_entries
+	// Pin: write_time is set ONCE on the connection, before the base rows are written, and never changed: every
+	// statement ties with the stored rows (the retry-batch usage of C15). How a tie resolves is outside the
+	// property, so the native mirror is not consulted; rollback, isolation and the request-log oracles remain.
+	Pin bool `json:"pin,omitempty"`
 }
 
 func init() {
@@ -65,7 +69,16 @@ func c05Run(r *engine.Run) int {
 			cases = append(cases, engine.J(c05Case{EPN: 4096, WT: true, Cache: 100, First: []int{a, b}, Depth: depth}))
 		}
 	}
+	// pinned write time (set once, never changed), single node, without and with a node cache
+	for _, cache := range []int{0, 100} {
+		for a := range c05Ops {
+			for b := range c05Ops {
+				cases = append(cases, engine.J(c05Case{EPN: 4096, WT: true, Pin: true, Cache: cache, First: []int{a, b}, Depth: depth}))
+			}
+		}
+	}
 	r.Bounds["node_cache_entries"] = []int{0, 100}
+	r.Bounds["write_time"] = []string{"unset", "set before every statement (increasing)", "set once before the base rows and never changed (single node only; no mirror comparison)"}
 	n := 0
 	r.MapBudget("c05", cases, func(i int, c json.RawMessage, res *engine.Result) {
 		r.Add("c05", c, res)
@@ -119,17 +132,31 @@ func c05RunSeq(res *engine.Result, c c05Case, ops []int) ([]string, bool) {
 			inTx = false
 		}
 	}
+	if c.Pin {
+		// a failed retire request leaves the superseded version current; a later opener then MERGES two versions
+		// whose entries carry the same time. How such a tie resolves is outside the property.
+		for _, o := range ops {
+			if c05Ops[o] == "arm-next-retire-request" {
+				return nil, false
+			}
+		}
+	}
 	names := make([]string, len(ops))
 	for i, o := range ops {
 		names[i] = c05Ops[o]
 	}
-	where := fmt.Sprintf("epn=%d cache=%d write_time_set=%v ops=%v", c.EPN, c.Cache, c.WT, names)
+	where := fmt.Sprintf("epn=%d cache=%d write_time_set=%v pinned=%v ops=%v", c.EPN, c.Cache, c.WT, c.Pin, names)
 	violFrom := len(res.Viol)
 	defer func() {
 		c05Feat(res, violFrom, c.EPN)
 		if c.Cache > 0 {
 			for i := violFrom; i < len(res.Viol); i++ {
 				res.Viol[i].Class += "|cache>0"
+			}
+		}
+		if c.Pin {
+			for i := violFrom; i < len(res.Viol); i++ {
+				res.Viol[i].Class += "|pinned-write-time"
 			}
 		}
 	}()
@@ -142,6 +169,9 @@ func c05RunSeq(res *engine.Result, c c05Case, ops []int) ([]string, bool) {
 	must(cl.Create(engine.TableOpts{EPN: c.EPN, Cache: c.Cache, Suffix: "_o", Prefix: "other"}))
 	must(cl.Exec("create table nat2(a primary key, b, c) without rowid"))
 	otherKey := 0
+	if c.Pin {
+		must(cl.SetWriteTime(engine.T(1000)))
+	}
 	must(cl.Exec("begin"))
 	for _, k := range []int{1, 3, 4} {
 		must(cl.Exec("insert into nat values(?,?,?)", k, "v", k))
@@ -161,7 +191,11 @@ func c05RunSeq(res *engine.Result, c c05Case, ops []int) ([]string, bool) {
 		}
 		return engine.FaultNone, nil
 	}
-	committed, _ := cl.Query("select a,b,c from nat order by a")
+	committedSQL := "select a,b,c from nat order by a"
+	if c.Pin {
+		committedSQL = "select a,b,c from {T} order by a"
+	}
+	committed, _ := cl.Query(committedSQL)
 	var preBegin, preBeginOther *engine.TreeDump
 	var txLogStart int
 	var lastDump *engine.TreeDump
@@ -177,7 +211,7 @@ func c05RunSeq(res *engine.Result, c c05Case, ops []int) ([]string, bool) {
 		logStart := w.B.LogLen()
 		armedBefore := armed
 		var nerr, serr error
-		if c.WT {
+		if c.WT && !c.Pin {
 			// explicit, strictly increasing write time per statement (ties are outside the property)
 			must(cl.SetWriteTime(engine.T(t)))
 		}
@@ -265,7 +299,7 @@ func c05RunSeq(res *engine.Result, c c05Case, ops []int) ([]string, bool) {
 			if nc != "ok" || sc != "ok" {
 				nontrivial = true
 			}
-			if nc != sc && !(sc == "err" && !inTx && armedBefore) {
+			if nc != sc && !c.Pin && !(sc == "err" && !inTx && armedBefore) {
 				// (an autocommit statement may fail in s3db because its commit was armed to fail; handled below)
 				if last {
 					res.Violate("statement-outcome:"+strings.Fields(op)[0], "%s: native %v, s3db %v [%s]", op, nerr, serr, where)
@@ -306,7 +340,7 @@ func c05RunSeq(res *engine.Result, c c05Case, ops []int) ([]string, bool) {
 		}
 		if !last {
 			if !inTx {
-				committed, _ = cl.Query("select a,b,c from nat order by a")
+				committed, _ = cl.Query(committedSQL)
 				lastDump, _ = engine.LiveDump(cl.Tab)
 			}
 			continue
@@ -314,12 +348,17 @@ func c05RunSeq(res *engine.Result, c c05Case, ops []int) ([]string, bool) {
 		// ---- oracles after the last step ----
 		nat, _ := cl.Query("select a,b,c from nat order by a")
 		got, gerr := cl.Query("select a,b,c from {T} order by a")
-		if gerr != nil || !got.Equal(nat) {
+		if c.Pin {
+			if gerr != nil {
+				res.Violate("own-view-unreadable:"+op, "after %s the connection cannot read its table: %v [%s]", op, gerr, where)
+			}
+			nat = got
+		} else if gerr != nil || !got.Equal(nat) {
 			res.Violate("own-view-differs:"+op, "after %s the connection sees %v (err %v), native mirror %v [%s]", op, got, gerr, nat, where)
 		}
 		nat2, _ := cl.Query("select a,b,c from nat2 order by a")
 		got2, g2err := cl.Query("select a,b,c from {T}_o order by a")
-		if g2err != nil || !got2.Equal(nat2) {
+		if !c.Pin && (g2err != nil || !got2.Equal(nat2)) {
 			cls := "own-view-differs-other-table:" + op
 			if op == "commit" && serr != nil && g2err == nil {
 				// COMMIT over two s3db tables: did the other table publish its version before this table's failed?
